@@ -7,12 +7,13 @@ time (glibc's choice among them for ambiguous times is history dependent); the t
 member.  For every HH:MM that exists today in the zone:
 * every possible encoding is the LE32 epoch second of an instant showing HH:MM on today's local date,
 * decoding any of them returns the same HH:MM.
-Text that is not HH:MM raises, except for the two input classes of known finding F8 (leading blanks in
-the hour part; fields after a second ':'), which are characterised exactly.
+Text that is not HH:MM raises: the accepted language is EXACTLY that of strptime("%H:%M") on the whole text
+(`accepted_iff`; formerly finding F8: leading blanks in the hour part and fields after a second ':' were accepted).
 -/
 import Switcher.Model.Sched
 import Switcher.Spec.Clock
 import Switcher.Proofs.Replies
+import Switcher.Proofs.Clock
 namespace Props.C11
 open Spec Model
 
@@ -157,18 +158,66 @@ theorem malformed_raises (z : Zone) (now : Int) (s : List Char) (e : Exc) (h : p
     timeToHexCands z now s = .error e := by
   unfold timeToHexCands; rw [h]
 
-/-- … and what it accepts is, after removing leading blanks of the hour part and everything after a second ':',
-    a text that strptime("%H:%M") accepts: the exact extent of known finding F8 -/
-theorem accepted_language (s : List Char) (hm : Nat × Nat) (h : parseClock s = .ok hm) :
-    ∃ p0 p1 rest, splitColon s = p0 :: p1 :: rest ∧ parseHM (p0.dropWhile isPySpace ++ [':'] ++ p1) = some hm := by
+/-- … and what it accepts is exactly what `strptime(text, "%H:%M")` accepts on the WHOLE text (one or two digits, ':', one or two
+    digits, hour ≤ 23, minute ≤ 59, nothing before, between or after), read as that hour and minute -/
+theorem accepted_language (s : List Char) (hm : Nat × Nat) (h : parseClock s = .ok hm) : parseHM s = some hm := by
   unfold parseClock at h
   split at h
   · rename_i p0 p1 rest heq
-    refine ⟨p0, p1, rest, heq, ?_⟩
     split at h
-    · rename_i hm' hp; cases h; exact hp
     · cases h
+    · rename_i x hx
+      -- the whole text parses: so it is `hs ++ ':' :: ms` with digits only, and the split gives back exactly hs and ms
+      have hx' := hx
+      unfold parseHM at hx'
+      split at hx'
+      · rename_i hs ms hsp
+        split at hx'
+        · rename_i hc
+          simp only [Bool.and_eq_true, decide_eq_true_eq] at hc
+          have ⟨e1, e2⟩ := Proofs.span_colon s hs ms hsp
+          have hms : splitColon ms = [ms] := Proofs.splitColon_nocolon ms (by
+            intro c hcm hcc
+            have := List.all_eq_true.mp hc.1.1.1.1.1.1.2 c hcm
+            subst hcc
+            revert this; decide)
+          rw [e2, hms] at heq
+          cases heq
+          rw [Proofs.dropWhile_space_digits p0 hc.1.1.1.1.1.1.1] at h
+          have : p0 ++ [':'] ++ p1 = s := by rw [e1]; simp
+          rw [this, hx] at h
+          simp only [pure, Except.pure, Except.ok.injEq] at h
+          rw [hx, h]
+        · cases hx'
+      · cases hx'
   · cases h
+
+/-- conversely every text that strptime("%H:%M") accepts is accepted, with that hour and minute -/
+theorem accepts_valid (s : List Char) (hm : Nat × Nat) (h : parseHM s = some hm) : parseClock s = .ok hm := by
+  have hx := h
+  unfold parseHM at hx
+  split at hx
+  · rename_i hs ms hsp
+    split at hx
+    · rename_i hc
+      simp only [Bool.and_eq_true, decide_eq_true_eq] at hc
+      have ⟨e1, e2⟩ := Proofs.span_colon s hs ms hsp
+      have hms : splitColon ms = [ms] := Proofs.splitColon_nocolon ms (by
+        intro c hcm hcc
+        have := List.all_eq_true.mp hc.1.1.1.1.1.1.2 c hcm
+        subst hcc
+        revert this; decide)
+      have : hs ++ [':'] ++ ms = s := by rw [e1]; simp
+      unfold parseClock
+      rw [e2, hms]
+      simp only [h, Proofs.dropWhile_space_digits hs hc.1.1.1.1.1.1.1, this]
+      rfl
+    · cases hx
+  · cases hx
+
+/-- the accepted language, both directions -/
+theorem accepted_iff (s : List Char) (hm : Nat × Nat) : parseClock s = .ok hm ↔ parseHM s = some hm :=
+  ⟨accepted_language s hm, accepts_valid s hm⟩
 
 /-- a valid hour and minute are in range -/
 theorem parseHM_range (s : List Char) (h m : Nat) (hp : parseHM s = some (h, m)) : h ≤ 23 ∧ m ≤ 59 := by
@@ -189,9 +238,10 @@ example : parseClock cs!"12:60" = .error .valueError := by decide +kernel
 example : parseClock cs!"ab:cd" = .error .valueError := by decide +kernel
 example : parseClock cs!"12:00 " = .error .valueError := by decide +kernel
 example : parseClock [] = .error .indexError := by decide +kernel
-/- KNOWN FINDING F8 — accepted although not HH:MM (the real code does the same): -/
-example : parseClock cs!" 21:00" = .ok (21, 0) := by decide +kernel
-example : parseClock cs!"21:00:99" = .ok (21, 0) := by decide +kernel
+/- formerly finding F8 (accepted although not HH:MM), repaired: -/
+example : parseClock cs!" 21:00" = .error .valueError := by decide +kernel
+example : parseClock cs!"21:00:99" = .error .valueError := by decide +kernel
+example : parseClock cs!"7:5" = .ok (7, 5) := by decide +kernel
 /- non-vacuity: a zone with a DST gap and an overlap; 02:30 does not exist on the spring day, 01:30 is shown twice in autumn -/
 def demoZone : Zone := { base := 3600, trans := [(1000000 - 3600, 7200), (2000000 - 7200, 3600)] }
 example : mktimeCands demoZone (2000000 - 1800) = [2000000 - 1800 - 3600, 2000000 - 1800 - 7200] := by decide +kernel
